@@ -215,4 +215,269 @@ theorem RInv.read {C r} (h : RInv C r) (n : Nat) : RInv C (r.read n).1 := by
   · exact h
   · exact h
 
+
+theorem RInv.fillStart {C r} (h : RInv C r) : RInv C r.fillStart.1 := by
+  unfold RSide.fillStart
+  by_cases he : r.eof = true
+  · simpa [he] using h
+  · by_cases hl : r.buf.lent = true
+    · simpa [he, hl] using h
+    · simp only [he, hl, if_false, Bool.false_eq_true]
+      obtain ⟨fifo, pos_le, len_le, cap_le, lent_space, eof_inner, inner_eof, cons⟩ := h
+      by_cases hm : r.max ≤ (r.buf.compactTo r.base r.max).data.length
+      · simp only [hm, if_true]
+        constructor
+        · simp only; rw [Buf.compactTo_avail _ _ _ pos_le]; exact fifo
+        · simp [Buf.compactTo_pos]
+        · exact Buf.compactTo_len_le _ _ _ len_le
+        · exact Nat.le_trans (Buf.compactTo_cap_le _ _ _) cap_le
+        · intro hb hl'
+          simp only [Buf.compactTo_lent] at hl'
+          simp_all
+        · simp_all
+        · simp_all
+        · simpa using cons
+      · simp only [hm, if_false]
+        have hlen := Buf.compactTo_len_le r.buf r.base r.max len_le
+        have hcap := Buf.compactTo_cap_le r.buf r.base r.max
+        constructor
+        · simp only
+          have := Buf.compactTo_avail r.buf r.base r.max pos_le
+          simp only [Buf.avail] at this ⊢
+          rw [this]; exact fifo
+        · simp [Buf.compactTo_pos]
+        · exact Nat.le_trans hlen (growCap_ge _ _ _)
+        · have := growCap_le (r.buf.compactTo r.base r.max).data.length (r.buf.compactTo r.base r.max).cap r.base hlen
+          simp only
+          omega
+        · intro hb _
+          exact growCap_space _ _ _ hb hlen
+        · simp_all
+        · simp_all
+        · simpa using cons
+
+/-- a started `fill_read_buf` has not seen EOF and owns the buffer -/
+theorem RSide.fillStart_started {r r' : RSide} (h : r.fillStart = (r', none)) :
+    r'.eof = false ∧ r'.buf.lent = true := by
+  unfold RSide.fillStart at h
+  by_cases he : r.eof = true
+  · simp [he] at h
+  · by_cases hl : r.buf.lent = true
+    · simp [he, hl] at h
+    · simp only [he, hl, if_false, Bool.false_eq_true] at h
+      by_cases hm : r.max ≤ (r.buf.compactTo r.base r.max).data.length
+      · simp [hm] at h
+      · simp only [hm, if_false, Prod.mk.injEq, and_true] at h
+        subst h
+        simp
+
+
+theorem RInv.fillPoll {C r} (h : RInv C r) (snap : List Nat) (he : r.eof = false) (hl : r.buf.lent = true) :
+    RInv C (r.fillPoll snap).1 := by
+  have hie : r.innerEof = false := by
+    cases hi : r.innerEof
+    · rfl
+    · have := h.inner_eof hi; simp_all
+  obtain ⟨fifo, pos_le, len_le, cap_le, lent_space, eof_inner, inner_eof, cons⟩ := h
+  unfold RSide.fillPoll
+  split
+  · -- Pending
+    rename_i rest hs
+    constructor <;> simp_all [content, Buf.avail]
+  · -- error
+    rename_i rest hs
+    constructor <;> simp_all [content, Buf.avail]
+  · -- data
+    rename_i bs rest hs
+    simp only [RSide.wake_buf, RSide.wake_delivered, RSide.wake_eof, RSide.wake_innerEof, RSide.wake_log]
+    constructor
+    · simp only [RSide.wake_taken, Buf.avail]
+      rw [List.drop_append_of_le_length pos_le, ← List.append_assoc, ← Buf.avail, ← fifo]
+    · simp; omega
+    · simp; omega
+    · simpa using cap_le
+    · intro _ hf; simp at hf
+    · intro hb
+      simp only [RSide.wake_base] at hb
+      have hsp := lent_space hb hl
+      simp only [he, hie, Bool.false_or, beq_iff_eq, List.isEmpty_iff]
+      intro hn
+      have : bs.length = 0 := by omega
+      exact List.length_eq_zero_iff.mp this
+    · simp only [hie, he, Bool.false_or, List.isEmpty_iff, beq_iff_eq]
+      intro hb; simp [hb]
+    · simp only [hie, Bool.false_or]
+      rw [hs] at cons
+      simp only [hie, content, Bool.false_eq_true, if_false] at cons
+      by_cases hbs : bs.isEmpty = true
+      · simp only [hbs, if_true] at cons ⊢
+        have : bs = [] := List.isEmpty_iff.mp hbs
+        subst this
+        simpa using cons
+      · simp only [hbs, if_false, Bool.false_eq_true] at cons ⊢
+        rw [← cons]
+        by_cases hn : min bs.length (r.buf.cap - r.buf.data.length) < bs.length
+        · have hne : (List.drop (min bs.length (r.buf.cap - r.buf.data.length)) bs).isEmpty = false := by
+            simp only [List.isEmpty_eq_false_iff, ne_eq, List.drop_eq_nil_iff, Nat.not_le]
+            exact hn
+          simp only [hn, if_true, content, hne, Bool.false_eq_true, if_false]
+          simp only [List.append_assoc]
+          rw [← List.append_assoc (List.take _ bs), List.take_append_drop]
+        · have : bs.length ≤ min bs.length (r.buf.cap - r.buf.data.length) := by omega
+          simp only [hn, if_false, List.take_of_length_le this, List.append_assoc]
+  · -- Ok(0)
+    rename_i rest hs
+    constructor <;> simp_all [content, Buf.avail]
+  · rename_i hs
+    constructor <;> simp_all [content, Buf.avail]
+
+/-- a poll that returns Pending leaves the future started -/
+theorem RSide.fillPoll_pending {r r' : RSide} {snap : List Nat} (h : r.fillPoll snap = (r', none)) :
+    r'.eof = r.eof ∧ r'.buf = r.buf := by
+  unfold RSide.fillPoll at h
+  split at h <;> simp at h
+  subst h
+  simp
+
+theorem RInv.fillDrive {C} (snapless : Unit) : ∀ (k : Nat) {r : RSide}, RInv C r → r.eof = false → r.buf.lent = true →
+    RInv C (r.fillDrive k).1
+  | 0, r, h, _, _ => by simpa [RSide.fillDrive] using h
+  | k + 1, r, h, he, hl => by
+    unfold RSide.fillDrive
+    have hp := h.fillPoll [driverTask] he hl
+    cases hq : r.fillPoll [driverTask] with
+    | mk r' o =>
+      rw [hq] at hp
+      cases o with
+      | some res => simpa using hp
+      | none =>
+        simp only
+        have := RSide.fillPoll_pending hq
+        exact RInv.fillDrive snapless k hp (by rw [this.1]; exact he) (by rw [this.2]; exact hl)
+
+theorem RInv.fill {C r} (h : RInv C r) (budget : Nat) : RInv C (r.fill budget).1 := by
+  unfold RSide.fill
+  cases budget with
+  | zero => simpa using h
+  | succ k =>
+    simp only
+    have hs := h.fillStart
+    cases hq : r.fillStart with
+    | mk r' o =>
+      rw [hq] at hs
+      cases o with
+      | some res => simpa using hs
+      | none =>
+        simp only
+        obtain ⟨he, hl⟩ := RSide.fillStart_started hq
+        have hp := hs.fillPoll [driverTask] he hl
+        cases hq2 : r'.fillPoll [driverTask] with
+        | mk r'' o2 =>
+          rw [hq2] at hp
+          cases o2 with
+          | some res => simpa using hp
+          | none =>
+            simp only
+            have := RSide.fillPoll_pending hq2
+            exact RInv.fillDrive () k hp (by rw [this.1]; exact he) (by rw [this.2]; exact hl)
+
+
+/-! ### write half -/
+
+structure WInv (w : WSide) : Prop where
+  fifo : w.accepted = w.sent ++ w.buf.avail
+  pos_le : w.buf.pos ≤ w.buf.data.length
+  pend_le : w.buf.data.length ≤ w.max + w.buf.pos
+  len_le : w.buf.data.length ≤ w.buf.cap
+
+theorem WInv.new (base max : Nat) (ws : List WItem) : WInv (WSide.new base max ws) := by
+  constructor <;> simp [WSide.new, Buf.new, Buf.avail]
+
+theorem WInv.clearObs {w} (h : WInv w) : WInv w.clearObs := by
+  cases h; constructor <;> simpa [WSide.clearObs]
+
+@[simp] theorem WSide.wake_buf (w : WSide) : w.wake.buf = w.buf := by unfold WSide.wake; split <;> rfl
+@[simp] theorem WSide.wake_base (w : WSide) : w.wake.base = w.base := by unfold WSide.wake; split <;> rfl
+@[simp] theorem WSide.wake_max (w : WSide) : w.wake.max = w.max := by unfold WSide.wake; split <;> rfl
+@[simp] theorem WSide.wake_script (w : WSide) : w.wake.script = w.script := by unfold WSide.wake; split <;> rfl
+@[simp] theorem WSide.wake_sent (w : WSide) : w.wake.sent = w.sent := by unfold WSide.wake; split <;> rfl
+@[simp] theorem WSide.wake_accepted (w : WSide) : w.wake.accepted = w.accepted := by unfold WSide.wake; split <;> rfl
+@[simp] theorem WSide.wake_log (w : WSide) : w.wake.log = w.log := by unfold WSide.wake; split <;> rfl
+
+theorem WInv.wake {w} (h : WInv w) : WInv w.wake := by
+  cases h; constructor <;> simpa
+
+theorem Buf.extend_avail (b : Buf) (src : Bytes) (h : b.pos ≤ b.data.length) :
+    (b.extend src).avail = b.avail ++ src := by
+  simp [Buf.extend, Buf.avail, List.drop_append_of_le_length h]
+
+theorem WInv.extend {w : WSide} (h : WInv w) (part : Bytes)
+    (hp : w.buf.data.length - w.buf.pos + part.length ≤ w.max) :
+    WInv { w with buf := w.buf.extend part, accepted := w.accepted ++ part } := by
+  obtain ⟨fifo, pos_le, pend_le, len_le⟩ := h
+  constructor
+  · simp only; rw [Buf.extend_avail _ _ pos_le, fifo, List.append_assoc]
+  · simp [Buf.extend]; omega
+  · simp [Buf.extend]; omega
+  · simp only [Buf.extend, List.length_append]
+    exact growAmortized_ge _ _ _ len_le
+
+theorem WInv.write {w} (h : WInv w) (src : Bytes) : WInv (w.write src).1 := by
+  unfold WSide.write
+  split
+  · exact h
+  · split
+    · exact h
+    · simp only
+      split
+      · split
+        · cases h; constructor <;> simpa [Buf.avail]
+        · split
+          · exact h
+          · apply h.extend
+            simp only [List.length_take]
+            omega
+      · apply h.extend
+        omega
+
+/-- what `write` accepts is what it reports -/
+theorem WSide.write_accepted (w : WSide) (src : Bytes) :
+    (w.write src).1.accepted = w.accepted ++ (match (w.write src).2 with | .ok n => src.take n | _ => []) := by
+  unfold WSide.write
+  split
+  · simp
+  · split
+    · simp
+    · simp only
+      split
+      · split
+        · simp
+        · split
+          · simp
+          · simp
+      · simp
+
+theorem WInv.flushTail {w} (h : WInv w) (snap : List Nat) (t : Nat) : WInv (w.flushTail snap t).1 := by
+  unfold WSide.flushTail
+  split <;> (cases h; constructor <;> simpa)
+
+theorem WSide.flushTail_same (w : WSide) (snap : List Nat) (t : Nat) :
+    (w.flushTail snap t).1.buf = w.buf ∧ (w.flushTail snap t).1.sent = w.sent ∧
+    (w.flushTail snap t).1.accepted = w.accepted ∧ (w.flushTail snap t).1.max = w.max ∧
+    (w.flushTail snap t).1.base = w.base := by
+  unfold WSide.flushTail
+  split <;> simp
+
+theorem WInv.compact {w} (h : WInv w) : WInv { w with buf := w.buf.compactTo w.base w.max } := by
+  obtain ⟨fifo, pos_le, pend_le, len_le⟩ := h
+  constructor
+  · simp only; rw [Buf.compactTo_avail _ _ _ pos_le]; exact fifo
+  · simp [Buf.compactTo_pos]
+  · simp only [Buf.compactTo_pos, Buf.compactTo_len_eq_avail _ _ _ pos_le]; omega
+  · exact Buf.compactTo_len_le _ _ _ len_le
+
+theorem WInv.afterFlushTo {w} (h : WInv w) (snap : List Nat) (t : Nat) : WInv (w.afterFlushTo snap t).1 := by
+  unfold WSide.afterFlushTo
+  exact h.compact.flushTail snap t
+
 end Compio.SyncStream
